@@ -121,6 +121,60 @@ fn o_name(c: &NameCase, st: &mut Stats) -> Result<(), String> {
     from_program::<ITyped>(&p, st)
 }
 
+/// A session of typed builds over a small pool of names and the two types with a name rule; every value
+/// is re-built at once (the usual check) and all of them once more at the end of the session, when the
+/// library has seen every other name in between.
+#[derive(Clone, Debug, Serialize, Deserialize)]
+pub struct NameSession {
+    pub names: Vec<String>,
+    /// (index into names, 0 nuget / 1 pypi)
+    pub steps: Vec<(u8, u8)>,
+}
+
+fn o_name_session(c: &NameSession, st: &mut Stats) -> Result<(), String> {
+    if c.names.is_empty() {
+        return Ok(());
+    }
+    let mut spawn_failed = false;
+    let r = std::thread::scope(|scope| {
+        let handle = std::thread::Builder::new().stack_size(1 << 20).spawn_scoped(scope, || -> Result<(), String> {
+            let mut made = Vec::new();
+            for (i, (n, t)) in c.steps.iter().enumerate() {
+                let p = Program { ty: ["nuget", "pypi"][*t as usize % 2].into(), name: c.names[*n as usize % c.names.len()].clone(), ops: vec![] };
+                let (_, v) = run::<ITyped>(&p);
+                if let Some(v) = v {
+                    rebuild::<ITyped>(&v, &format!("step {i} of a session, built by {p:?}"), st)?;
+                    made.push((i, v));
+                }
+            }
+            // in reverse order first (re-building them in the original order would re-create the history that
+            // produced them), then in the original order
+            for (i, v) in made.iter().rev().chain(made.iter()) {
+                rebuild::<ITyped>(v, &format!("the value of step {i}, re-built at the end of a session of {} steps", c.steps.len()), st)?;
+            }
+            Ok(())
+        });
+        match handle {
+            Ok(h) => h.join().map_err(|_| ()),
+            Err(_) => {
+                spawn_failed = true;
+                Err(())
+            },
+        }
+    });
+    if spawn_failed {
+        return Ok(());
+    }
+    match r {
+        Ok(r) => {
+            r?;
+            st.class("name-session");
+            Ok(())
+        },
+        Err(()) => Err("the oracle thread of a name session panicked".into()),
+    }
+}
+
 pub fn sections() -> Vec<Box<dyn Section>> {
     vec![
         Box::new(Random {
@@ -155,6 +209,21 @@ pub fn sections() -> Vec<Box<dyn Section>> {
             oracle: o_program,
             required: vec!["rebuilt", "pypi-or-nuget-value", "value-with-checksum"],
         }),
+        Box::new(Random {
+            name: "name-sessions-rebuilt-at-the-end".into(),
+            quick: 4_000,
+            thorough: 150_000,
+            strategy: Box::new(|_| {
+                let name = prop_oneof![
+                    3 => proptest::collection::vec(proptest::sample::select(NAME_ALPHABET), 1..=6).prop_map(|v| v.into_iter().collect::<String>()),
+                    2 => proptest::sample::select(&["zope.interface", "Newtonsoft.Json", "a_b", "A-B", "x..y", "requests"][..]).prop_map(str::to_string),
+                    1 => crate::chars::gtext1(),
+                ];
+                (proptest::collection::vec(name, 1..=4), proptest::collection::vec((0u8..4, 0u8..2), 2..=12)).prop_map(|(names, steps)| NameSession { names, steps }).boxed()
+            }),
+            oracle: o_name_session,
+            required: vec!["name-session", "pypi-or-nuget-value"],
+        }),
         Box::new(Enumerated {
             name: "every-scalar-value-next-to-a-separator".into(),
             total: Box::new(|_| 0x110000 * 3),
@@ -178,6 +247,37 @@ pub fn sections() -> Vec<Box<dyn Section>> {
                 let a = crate::chars::length_changing_alphabet();
                 let n = names_total(a, t.pick(3, 4));
                 Some(NameCase { ty: ["nuget", "pypi", "npm"][(i / n) as usize].into(), name: name_from_index(a, t.pick(3, 4), i % n) })
+            }),
+            oracle: o_name,
+            required: vec!["rebuilt", "pypi-or-nuget-value"],
+            complete: true,
+        }),
+        Box::new(Enumerated {
+            // a checksum that names an algorithm twice, once with a letter and once with that letter's lower-case
+            // form, for every letter that has one: whatever the parser makes of it (it should refuse), a value that
+            // comes out must re-build to itself
+            name: "checksum-with-an-algorithm-and-its-lower-case-form".into(),
+            total: Box::new(|_| 0x110000 * 2),
+            make: Box::new(|_, i| {
+                let c = char::from_u32((i / 2) as u32)?;
+                let lower: String = c.to_lowercase().collect();
+                if lower == c.to_string() || c == ',' {
+                    return None;
+                }
+                let enc = |s: &str| -> String { s.bytes().map(|b| format!("%{b:02X}")).collect() };
+                let (a, b) = (enc(&format!("{c}x")), enc(&format!("{lower}x")));
+                Some(if i % 2 == 0 { format!("pkg:generic/n?checksum={a}:00,{b}:11") } else { format!("pkg:npm/n@1?checksum=a:00,{b}:11,{a}:22#s") })
+            }),
+            oracle: o_string,
+            required: vec![],
+            complete: true,
+        }),
+        Box::new(Enumerated {
+            name: "names-near-the-inline-capacity".into(),
+            total: Box::new(|_| 2 * crate::chars::names_near_inline_capacity().len() as u64),
+            make: Box::new(|_, i| {
+                let v = crate::chars::names_near_inline_capacity();
+                Some(NameCase { ty: ["pypi", "nuget"][(i as usize) / v.len()].into(), name: v[(i as usize) % v.len()].clone() })
             }),
             oracle: o_name,
             required: vec!["rebuilt", "pypi-or-nuget-value"],
